@@ -7,7 +7,38 @@ injected by go/overlay/c16_rate_hook.go, marks "the tick has been served"; a bur
 period is output as `inconclusive` and does not count).  The driver replays the same calls on `RL.exec`.
 Tie (b) `stress`: Close-vs-tick stress with microsecond periods, judged by the harness, every line in a child process."""
 
+import re
+
 OVERLAY = {"rate/zz_verif_c16_hook.go": "c16_rate_hook.go"}
+_ERR = re.compile(r"err-(neg|cap|closed|other)")
+
+
+def _canon(out):
+    """The property constrains nil / error, not which error a request gets nor its text (the harness has to read the
+    class off the message): all error classes are compared as `err`."""
+    return _ERR.sub("err", out)
+
+
+def _race_stress(ctx):
+    """A small part of the Close-vs-tick stress (with the concurrent Cap / LastUsed / Closed / SetCap callers) under the
+    race detector: a data race inside the package kills the child process, which the parent reports as FAIL."""
+    if ctx.replay or "harness" not in ctx.harness_bin:
+        return
+    if not ctx.harness("./cmd/c16", name="harness_race", race=True, overlay=OVERLAY):
+        return
+    n = 16 if ctx.tier == "quick" else 120
+    lines = [re.sub(r" \d+$", " 12", l) for l in ctx.gen("stress", ctx.seed * 7919 + 23, n)]
+    outs = ctx.run_impl("stress", lines, name="harness_race", timeout=900, extra_env={"C16_STRESS_PAR": "8"}) or []
+    ctx.rules.append("area stress under -race: %d configurations x 12 attempts, implementation-side oracle" % len(lines))
+    for l, o in zip(lines, outs):
+        ctx.extra["oracle_stress_race"] = ctx.extra.get("oracle_stress_race", 0) + 1
+        if not o.startswith("ok"):
+            rep = {"property": ctx.id, "kind": "impl-oracle", "area": "stress", "harness": "harness_race", "ops": [l],
+                   "impl_outputs": [o], "concrete_failing_input": True,
+                   "note": "Close-vs-tick stress built with -race (a dying child process = race detector report or crash)"}
+            ctx.violations.append({"kind": "impl-oracle", "what": "stress (-race): %s on `%s`" % (o[:200], l),
+                                   "replay": ctx._write_replay(rep), "concrete": True})
+            break
 
 
 def _mask_inconclusive(ctx):
@@ -104,8 +135,11 @@ def run(ctx):
         "detached closed limiter; it does not touch the tree",
     ]
     ctx.assumptions += [
-        "capacities are non-negative (the model uses Nat; a negative capacity makes `granted <= capacity` false with "
-        "nothing granted) and are Go ints, i.e. <= MaxInt (a fact of the type); no smaller bound is assumed: "
+        "the theorems are about non-negative capacities (the model uses Nat; a negative capacity makes `granted <= "
+        "capacity` false with nothing granted); negative capacities (-1, MinInt) are nevertheless RUN: the driver feeds "
+        "them to the model as 0 (every decision of the code compares an amount >= 1 with capacity or capacity - used, "
+        "both < 1 either way) and prints Cap() from the raw values; capacities are Go ints, i.e. <= MaxInt (a fact of "
+        "the type); no smaller bound is assumed: "
         "C16.int_arithmetic_exact shows 0 <= used, last, queued amounts <= MaxInt and used <= capacity, so every "
         "`capacity - used` of the code is exact and `used += amount` cannot wrap; both ties run capacities and "
         "amounts at MaxInt, MaxInt-1, MaxInt/2+1 with usage summing past MaxInt within a period",
@@ -117,6 +151,8 @@ def run(ctx):
         "close_returns is deadlock-freedom plus a 3-step path to the return; that the Go scheduler and `select` "
         "eventually take an enabled step is assumed",
         "timing: a lock-step burst counts only if it certainly lies within one period (wall-clock window check)",
+        "only nil / error is compared for an answer, not which error nor its text (the harness reads the class off the "
+        "message; a reworded message must not alarm)",
         "reading (coordinator decision): lastUsed_spec is about limiters still linked into the tree, which includes "
         "every open limiter; a child unlinked by its own Close is no longer reset, so its LastUsed keeps the value of "
         "the last tick before its Close (model and code agree; not alarmed on)",
@@ -127,7 +163,7 @@ def run(ctx):
     _cheap_minimise(ctx)
     period = "200" if ctx.tier == "quick" else "120"
     ctx.diff(area="burst", driver="drv_c16", n={"quick": 40000, "thorough": 3000000}, stateful=True,
-             trivial=lambda l, o: o == "inconclusive",
+             trivial=lambda l, o: o == "inconclusive", canon=_canon,
              extra_env={"C16_PERIOD_MS": period, "C16_PAR": "64"}, timeout=600,
              theorem="C16.granted_le_cap / lastUsed_spec / answer_exactly_once / immediate_errors / "
                      "waiting_served_fifo_as_capacity_returns / close_marks_subtree_and_fails_pending are about "
@@ -139,3 +175,4 @@ def run(ctx):
                           "a 5 s deadline in a child process (C16.close_returns / answer_exactly_once / "
                           "close_marks_subtree_and_fails_pending)",
                     extra_env={"C16_STRESS_PAR": "8"})
+    _race_stress(ctx)
